@@ -27,11 +27,15 @@ RULE = ("inputs: IEEE special values (NaN, +-inf, +-0.0, subnormals, neighbours 
         "set/up/down/read/device-report over the real facade+RaopAudio and facade+MrpAudio (specials included), with RAOP "
         "stream starts (real RaopStream.stream_file + real StreamClient.send_audio; receiver advertising any / no initialVolume, "
         "accepting or rejecting SET_PARAMETER volume before RECORD; level never known / user-set / reported; every fixed level incl. "
-        "0.0 and 100.0 set-then-stream-then-read) and MRP volume updates for other output-device UIDs interleaved, plus a "
+        "0.0 and 100.0 set-then-stream-then-read), operations issued while another one is suspended (at connect / info / "
+        "open-source of stream_file; during the SET_PARAMETER round trip of a set_volume that is then refused or accepted), "
+        "two device objects alive in one process with interleaved operations, "
+        "and MRP volume updates for other output-device UIDs interleaved, plus a "
         "BFS over every state reachable by volume_up/volume_down; non-trivial = input at or outside a boundary, a "
         "special value, or a history containing a rejected set, a clamped step or an out-of-range report; distinct = "
         "(kind, exact input)")
 ASSUMPTIONS = [
+    "an operation issued while another one is suspended in an await is run inline at that await by the harness (one deterministic interleaving per suspension point; the event loop is run before the suspended operation continues)",
     "IEEE-754 binary64 round-to-nearest-even is monotone (the Lean theorems need a monotone rounding that is exact on 0,1,30,100,3000,-30; exactness on these is proved for the driver's rne)",
     "float read-back is compared within a tolerance (4 ulp at 100 for one conversion, 8 ulp for set-then-read); exact equality is proved in exact arithmetic only",
     "no operation of the volume path overflows binary64 (every operand has passed a range guard)",
@@ -482,6 +486,33 @@ def check_companion(ctx, only=None):
 
 
 # ---------------------------------------------------------------------------- histories
+def ser(x):
+    """operation argument -> JSON (floats exactly, as hex)"""
+    if x is None or isinstance(x, (bool, str)):
+        return x
+    if isinstance(x, (int, float)):
+        return {"f": float(x).hex()}
+    return [ser(i) for i in x]
+
+
+def deser(x):
+    if isinstance(x, dict):
+        return float.fromhex(x["f"])
+    if isinstance(x, list):
+        return [deser(i) for i in x]
+    return x
+
+
+def show(x):
+    if isinstance(x, (list, tuple)):
+        return [show(i) for i in x]
+    return x if x is None or isinstance(x, (bool, str)) else repr(x)
+
+
+_RIGS = []                   # device objects recently built (bounded), for log attribution
+_CURRENT_RIG = [None]        # the rig whose stream_file is running (for the module-level open_source)
+
+
 class Rig:
     """Common recording for a facade-over-real-protocol-Audio history."""
 
@@ -501,7 +532,11 @@ class Rig:
         (self.cur[1] if self.cur is not None else self.pending_logs).append(s)
 
     def loop_exception(self, loop, context):
-        self.pending_logs.append("log:" + err_class(context.get("exception") or RuntimeError()))
+        """Exception in a call_soon callback (a state listener): attribute it to the device
+        object whose listener raised (several may be alive on this loop)."""
+        owner = getattr(getattr(context.get("handle"), "_callback", None), "__self__", None)
+        target = next((r for r in reversed(_RIGS) if getattr(r, "audio", None) is owner), self)
+        target.pending_logs.append("log:" + err_class(context.get("exception") or RuntimeError()))
 
     async def flush(self):
         for _ in range(4):
@@ -553,8 +588,12 @@ def patch_raop():
             return b""
 
     async def open_source(*args, **kwargs):
+        if _CURRENT_RIG[0] is not None:
+            await _CURRENT_RIG[0].gate("open")      # opening the source may take long (HTTP download)
         return Source()
 
+    import logging
+    logging.getLogger("pyatv.protocols.raop.stream_client").disabled = True   # "connection closed" per fake stream
     _PATCHED.update(open_source=raop_module.open_source, extract_credentials=raop_module.extract_credentials)
     raop_module.open_source = open_source
     raop_module.extract_credentials = lambda service: None
@@ -562,6 +601,8 @@ def patch_raop():
 
 def unpatch_raop():
     import pyatv.protocols.raop as raop_module
+    import logging
+    logging.getLogger("pyatv.protocols.raop.stream_client").disabled = False
     for name, orig in _PATCHED.items():
         setattr(raop_module, name, orig)
     _PATCHED.clear()
@@ -586,6 +627,11 @@ class RaopRig(Rig):
         self.stream_checks = []
         self.last_set = None         # last in-range level set by the user, while nothing else changed it
 
+        self.armed = None            # (gate name, op, x): issue that operation while suspended at the gate
+        self.gate_hit = False
+        self.on_gate = None
+        self.refuse_next = False
+        self.readbacks = []
         self.accepts = True          # receiver accepts SET_PARAMETER volume before RECORD
         self.recorded = False        # RECORD has been sent in the current session
         self.in_send_audio = False
@@ -600,13 +646,19 @@ class RaopRig(Rig):
             async def set_parameter(self, name, value):
                 assert name == "volume"
                 rig.sent.append(float(value))          # offered to the receiver, accepted or not
+                if await rig.gate("set_parameter") and rig.refuse_next:   # request in flight, then refused
+                    rig.refuse_next = False
+                    rig.ev("try:" + tok(float(value)))
+                    raise exceptions.HttpError("RTSP/1.0 453 Not Enough Bandwidth", 453)
                 if not rig.accepts and not rig.recorded:
                     rig.ev("try:" + tok(float(value)))
                     raise exceptions.HttpError("RTSP/1.0 400 Bad Request", 400)
                 if rig.in_send_audio:
                     rig.ev("late:" + tok(float(value)))
+                    rig.stored = True
 
             async def info(self):
+                await rig.gate("info")
                 return dict(rig.receiver_info)
 
             async def record(self, *args, **kwargs):
@@ -674,6 +726,7 @@ class RaopRig(Rig):
         self.pm = RaopPlaybackManager(fake_core)
 
         async def pm_setup(service):
+            await rig.gate("connect")                  # TCP connect + RTSP session set-up take time
             if self.pm._stream_client is None:
                 rig.recorded = False
                 self.pm._rtsp = Rtsp()
@@ -704,7 +757,11 @@ class RaopRig(Rig):
             rig.recv.append(level)
             rig.ev("recv:" + tok(level))
             await orig_set(level)
+            rig.stored = True        # a level was stored through set_volume
 
+        self.stored = False
+        _RIGS.append(self)
+        del _RIGS[:-4]
         self.audio.set_volume = set_volume
         self.atv = await make_atv(core, Protocol.RAOP, self.audio)
         self.stream = RaopStream(fake_core, None, self.audio, self.pm)
@@ -727,27 +784,115 @@ class RaopRig(Rig):
         except Exception as exc:
             return "raise:" + err_class(exc)
 
-    async def stream_start(self, init, accepts=True):
+    async def gate(self, name):
+        """A point where the real code is suspended in an await (connect, an RTSP round trip,
+        opening the source).  If an operation is armed for this point it is issued now —
+        exactly what another task of the application would do — and the loop runs."""
+        if self.armed is None or self.armed[0] != name:
+            return False
+        _, op, x = self.armed
+        self.armed = None
+        self.gate_hit = True
+        saved, self.cur = self.cur, None
+        await self.do(op, x)
+        await self.flush()
+        self.cur = saved
+        if self.on_gate is not None:
+            hook, self.on_gate = self.on_gate, None
+            hook()
+        return True
+
+    async def do(self, op, x=None):
+        """One operation of a history on this device object, with the oracle's bookkeeping."""
+        if op == "report":
+            self.report(x)
+        elif op in ("stream", "streamrej"):
+            await self.stream_start(x, accepts=(op == "stream"))
+        elif op == "streamdur":
+            init, accepts, gate, nop, nx = x
+            await self.stream_start(init, accepts=accepts, during=(gate, nop, nx))
+        elif op == "setdur":
+            await self.set_overlapping(*x)
+        else:
+            await self.user_op(op, x)
+            evs = self.entries_last_user[1]
+            if op == "set":
+                self.last_set = x if in_pct(x) and not any(e.startswith("raise:") for e in evs) else None
+            elif op == "read":
+                if self.last_set is not None and self.rets and any(e.startswith("ret:") for e in evs):
+                    self.readbacks.append((self.last_set, self.rets[-1]))
+            else:
+                self.last_set = None
+
+    def begin(self, optok):
+        super().begin(optok)
+        self.entries_last_user = self.cur
+
+    async def set_overlapping(self, x, refuse, nop, nx):
+        """`set_volume(x)` during whose SET_PARAMETER round trip another operation is issued;
+        the receiver then refuses (or never answers) the first request, or accepts it."""
+        self.armed, self.gate_hit, self.refuse_next = ("set_parameter", nop, nx), False, bool(refuse)
+        self.begin("s:" + tok(x))
+        entry, raised = self.cur, False
+        try:
+            await self.atv.audio.set_volume(x)
+        except Exception as exc:
+            raised = True
+            self.ev("raise:" + err_class(exc))
+        finally:
+            self.cur = None
+        hit, refused = self.gate_hit, self.gate_hit and raised and refuse
+        self.armed, self.refuse_next, self.gate_hit = None, False, False
+        if hit:                      # the request completed after everything issued meanwhile
+            idx = next(i for i, e in enumerate(self.entries) if e is entry)
+            self.entries.append(self.entries.pop(idx))
+            if refused:
+                entry[0] = "f:" + tok(x)
+        if refused:
+            pass                     # a refused set changes nothing: the level set meanwhile stands
+        else:
+            self.last_set = x if in_pct(x) and not raised else None
+
+    async def stream_start(self, init, accepts=True, during=None):
         """One complete RaopStream.stream_file (real StreamClient.send_audio included); the
         receiver advertises initialVolume=init (None: does not advertise) and accepts or
-        rejects SET_PARAMETER volume before RECORD.  Records what the oracle needs."""
+        rejects SET_PARAMETER volume before RECORD.  `during=(gate, op, x)`: while stream_file
+        is suspended at that point (connect / info / open) the operation is issued.  Records
+        what the oracle needs."""
         if self.pm.stream_client is not None:     # a stream was running (client=True rigs): it ends first
             await self.pm.teardown()
         self.receiver_info = {} if init is None else {"initialVolume": init}
         self.accepts = accepts
-        before, nsent, changed = self._read(), len(self.sent), bool(self.recv)
-        self.begin("t:" + ("none" if init is None else tok(init)) + (":a" if accepts else ":r"))
+        token = "t:" + ("none" if init is None else tok(init)) + (":a" if accepts else ":r")
+        snap = {}
+
+        def start_entry():           # the level stream_file has to respect is the one current now
+            snap.update(before=self._read(), nsent=len(self.sent), changed=self.stored, last_set=self.last_set)
+            self.begin(token)
+
+        if during is None:
+            start_entry()
+        else:
+            self.armed, self.gate_hit, self.on_gate = tuple(during), False, start_entry
         raised = None
+        _CURRENT_RIG[0] = self
         try:
             await self.stream.stream_file("verif.wav")
         except Exception as exc:
             raised = err_class(exc)
+            if not snap:
+                start_entry()
             self.ev("raise:" + raised)
         finally:
+            _CURRENT_RIG[0] = None
+            if not snap:
+                start_entry()
             self.cur = None
+            self.armed, self.on_gate, self.gate_hit = None, None, False
         self.accepts = True
-        self.stream_checks.append({"init": init, "accepts": accepts, "before": before, "after": self._read(), "changed": changed,
-                                   "last_set": self.last_set, "sent": self.sent[nsent:], "raised": raised})
+        self.stream_checks.append({"init": init, "accepts": accepts, "before": snap["before"], "after": self._read(),
+                                   "changed": snap["changed"], "last_set": snap["last_set"],
+                                   "sent": self.sent[snap["nsent"]:], "raised": raised})
 
 
 class MrpRig(Rig):
@@ -841,7 +986,21 @@ def random_history(rng, n, proto="raop"):
     for _ in range(n):
         k = rng.random()
         if proto == "raop" and rng.chance(0.12):
-            ops.append((rng.choice(["stream", "stream", "streamrej"]), rng.choice(INITIAL_POOL)))
+            if rng.chance(0.35):     # an operation arrives while stream_file is being set up
+                accepts = rng.chance(0.7)
+                nop = rng.choice(["set", "set", "report", "up", "down"])
+                nx = (rng.choice(LEVEL_POOL) if rng.chance(0.4) else rng.uniform(0, 100)) if nop in ("set", "report") else None
+                gate = rng.choice(["connect", "info", "open"]) if accepts else "connect"
+                ops.append(("streamdur", [rng.choice(INITIAL_POOL), accepts, gate, nop, nx]))
+            else:
+                ops.append((rng.choice(["stream", "stream", "streamrej"]), rng.choice(INITIAL_POOL)))
+            if rng.chance(0.7):
+                ops.append(("read", None))
+            continue
+        if proto == "raop" and rng.chance(0.08):      # two overlapping operations, the first refused or not
+            nop = rng.choice(["set", "set", "report", "up", "down", "read"])
+            nx = (rng.choice(LEVEL_POOL) if rng.chance(0.4) else rng.uniform(0, 100)) if nop in ("set", "report") else None
+            ops.append(("setdur", [rng.uniform(0, 100) if rng.chance(0.8) else rng.choice(LEVEL_POOL), rng.chance(0.6), nop, nx]))
             if rng.chance(0.7):
                 ops.append(("read", None))
             continue
@@ -866,20 +1025,26 @@ def random_history(rng, n, proto="raop"):
 async def run_raop_history(ops, with_client, burst=()):
     rig = await RaopRig().setup(with_client)
     for i, (op, x) in enumerate(ops):
-        if op == "report":
-            rig.report(x)
-        elif op in ("stream", "streamrej"):
-            await rig.stream_start(x, accepts=(op == "stream"))
-        else:
-            await rig.user_op(op, x)
-            if op == "set" and in_pct(x):
-                rig.last_set = x
-            elif op != "read":
-                rig.last_set = None
+        await rig.do(op, x)
         if i not in burst:
             await rig.flush()
     await rig.flush()
     return rig
+
+
+async def run_two_devices(ops, with_client):
+    """Two device objects alive in one process, built the same way; operations prefixed
+    `B:` go to the second one.  Each must behave as if it were alone."""
+    a = await RaopRig().setup(with_client)
+    b = await RaopRig().setup(with_client)
+    for op, x in ops:
+        if op.startswith("B:"):
+            await b.do(op[2:], x)
+        else:
+            await a.do(op, x)
+        await a.flush()
+    await a.flush()
+    return a, b
 
 
 async def run_mrp_history(ops, initial):
@@ -912,6 +1077,8 @@ def history_problems(proto, ops, rig, utils):
             problems.append((f"{proto}:read-out-of-range", f"audio.volume returned {v!r}"))
     user = [e for e in rig.entries if not e[0].startswith(("p:", "o:"))]
     uops = [o for o in ops if o[0] not in ("report", "other")]
+    if any(o[0] in ("streamdur", "setdur") for o in ops):
+        uops, user = [], []       # nested operations: entries are not one per listed operation
     for (op, x), (_t, evs) in zip(uops, user):
         raised = [e[6:] for e in evs if e.startswith("raise:")]
         if op == "set":
@@ -921,6 +1088,10 @@ def history_problems(proto, ops, rig, utils):
                 problems.append((f"{proto}:set-wrong-exception", f"set_volume({x!r}) -> {evs} (ProtocolError required)"))
         elif op == "read" and raised and raised != ["protocol"]:
             problems.append((f"{proto}:read-wrong-exception", f"audio.volume raised {raised}"))
+    # read-back: while nothing else changed the level, audio.volume returns the level last set
+    for want, got in getattr(rig, "readbacks", []):
+        if not isinstance(got, (int, float)) or abs(got - want) > TOL_READBACK:
+            problems.append((f"{proto}:read-back-differs", f"set_volume({want!r}) succeeded, nothing changed the level since, audio.volume reads {got!r}"))
     # stream start: a level the user set (or any level already stored through set_volume) must
     # survive the start, whatever the receiver advertises, and the receiver must be sent it
     def pct_of(d):
@@ -977,12 +1148,36 @@ def events_agree(impl, model, wire32):
     return True
 
 
-def check_histories(ctx, utils, only=None):
-    rng = ctx.rng.fork("hist")
-    todo = []
+def broken(ctx):
+    """the direct oracle already has a failing input: the verdict is decided, stop generating
+    further work (a model/implementation disagreement alone does not stop the search — a
+    failing input is still wanted)"""
+    return bool(ctx.failures)
+
+
+def check_histories(ctx, utils, only=None, phase="all"):
+    """phase "first": the fixed histories (two device objects, interleavings, boundaries) as one
+    small chunk; "rest": seeded random histories, chunk by chunk, stopping after the first
+    chunk that produced a failure or a disagreement (a broken tree gets its verdict in about
+    the normal wall time even if every further case would be slow)."""
     if only is not None:
-        todo = [only]
-    else:
+        return evaluate_histories(ctx, utils, [only])
+    if phase in ("all", "first"):
+        evaluate_histories(ctx, utils, fixed_histories())
+        if phase == "first" or broken(ctx):
+            return broken(ctx)
+    rng = ctx.rng.fork("hist")
+    total, chunk = ctx.scale(600, 15000), ctx.scale(150, 1500)
+    done = 0
+    while done < total and not broken(ctx):
+        evaluate_histories(ctx, utils, random_histories(ctx, rng, min(chunk, total - done)))
+        done += chunk
+    ctx.note("hist:random-generated", min(done, total))
+    return broken(ctx)
+
+
+def fixed_histories():
+    if True:
         fixed = [
             ("raop", [("read", None), ("set", 50.0), ("read", None), ("up", None), ("read", None)], {"client": True}),
             ("raop", [("report", NAN), ("up", None), ("read", None), ("down", None)], {"client": True}),
@@ -1016,53 +1211,95 @@ def check_histories(ctx, utils, only=None):
             ("raop", [("report", 100.0), ("stream", -15.0), ("read", None)], {"client": False}),
             ("raop", [("set", 100.0), ("stream", -15.0), ("read", None)], {"client": True}),
         ]
-        todo += fixed
-        for _ in range(ctx.scale(600, 15000)):
+        # operations arriving while another one is suspended in an await
+        for gate in ("connect", "info", "open"):
+            for init in (None, -15.0):
+                fixed.append(("raop", [("set", 20.0), ("streamdur", [init, True, gate, "set", 60.0]), ("read", None)], {"client": False}))
+                fixed.append(("raop", [("set", 20.0), ("streamdur", [init, True, gate, "report", 45.0]), ("read", None)], {"client": False}))
+                fixed.append(("raop", [("streamdur", [init, True, gate, "set", 100.0]), ("read", None)], {"client": False}))
+        fixed += [
+            ("raop", [("set", 20.0), ("streamdur", [None, False, "connect", "set", 60.0]), ("read", None)], {"client": False}),
+            ("raop", [("set", 30.0), ("setdur", [20.0, True, "set", 50.0]), ("read", None), ("up", None), ("read", None)], {"client": True}),
+            ("raop", [("set", 30.0), ("setdur", [20.0, False, "set", 50.0]), ("read", None)], {"client": True}),
+            ("raop", [("set", 30.0), ("setdur", [20.0, True, "report", 70.0]), ("read", None), ("down", None)], {"client": True}),
+            ("raop", [("set", 30.0), ("setdur", [20.0, True, "up", None]), ("read", None)], {"client": True}),
+            ("raop", [("set", 30.0), ("setdur", [20.0, True, "read", None]), ("read", None)], {"client": True}),
+            # two device objects alive at once
+            ("raop2", [("set", 20.0), ("B:set", 70.0), ("read", None), ("up", None), ("B:read", None), ("read", None)], {"client": False}),
+            ("raop2", [("set", 20.0), ("B:report", 70.0), ("read", None), ("B:up", None), ("read", None), ("B:read", None)], {"client": True}),
+            ("raop2", [("B:set", 0.0), ("set", 100.0), ("B:stream", -15.0), ("read", None), ("stream", None), ("B:read", None), ("read", None)], {"client": False}),
+        ]
+        # the multi-device cases first
+        fixed.sort(key=lambda t: t[0] != "raop2")
+        return fixed
+
+
+def random_histories(ctx, rng, count):
+    todo = []
+    if True:
+        for _ in range(count):
             n = rng.randint(1, ctx.scale(14, 30))
-            if rng.chance(0.6):
+            if rng.chance(0.12):
+                both = [(("B:" + o) if rng.chance(0.5) else o, x) for o, x in random_history(rng, n, "raop") if o not in ("streamdur", "setdur")]
+                todo.append(("raop2", both, {"client": rng.chance(0.5)}))
+            elif rng.chance(0.6):
                 burst = sorted(rng.sample(range(n), rng.randint(0, n // 2))) if rng.chance(0.3) else []
                 todo.append(("raop", random_history(rng, n, "raop"), {"client": rng.chance(0.5), "burst": burst}))
             else:
                 todo.append(("mrp", random_history(rng, n, "mrp"), {"initial": rng.choice([0.0, 1.0, 0.5, 0.33, 0.97, 0.02])}))
 
+    return todo
+
+
+def evaluate_histories(ctx, utils, todo):
     async def run_all():
         out = []
         for proto, ops, opt in todo:
             if proto == "raop":
                 out.append(await run_raop_history(ops, opt.get("client", False), set(opt.get("burst", ()))))
+            elif proto == "raop2":
+                out.append(await run_two_devices(ops, opt.get("client", False)))
             else:
                 out.append(await run_mrp_history(ops, opt["initial"]))
         return out
 
     # one fresh virtual-time loop per batch (wait_for timeouts cost nothing)
     rigs = vloop.run(run_all)
-    lines = []
+    records = []        # one per device object: (protocol, its operations, rig, the whole case)
     for (proto, ops, opt), rig in zip(todo, rigs):
+        case = {"kind": "history", "protocol": proto, "ops": [[o, ser(x)] for o, x in ops], "options": dict(opt)}
+        if proto == "raop2":
+            records.append(("raop", [(o, x) for o, x in ops if not o.startswith("B:")], rig[0], case, ops))
+            records.append(("raop", [(o[2:], x) for o, x in ops if o.startswith("B:")], rig[1], case, ops))
+        else:
+            records.append((proto, ops, rig, case, ops))
+    lines = []
+    for proto, ops, rig, case, allops in records:
         if proto == "raop":
             lines.append(f"raop f none {encode_ops(rig.entries)}")
         else:
             lines.append(f"mrp f {tok(rig.initial_volume)} {encode_ops(rig.entries)}")
     answers = ctx.lean(lines)
     failures_before = len(ctx.failures)
-    for (proto, ops, opt), rig, model in zip(todo, rigs, answers):
+    for (proto, ops, rig, case, allops), model in zip(records, answers):
         impl = encode_events(rig.entries)
-        canon = [proto, [(o, tok(x) if x is not None else None) for o, x in ops], sorted(opt.items())]
+        shown = [[o, show(x)] for o, x in allops]
         rejected = any(o == "set" and not in_pct(x) for o, x in ops)
         odd_report = any(o == "report" and not in_pct(x) for o, x in ops)
         clamped = any("recv:100/1" in e or "recv:0/1" in e for _, evs in rig.entries for e in evs)
-        ctx.case(canon, rejected or odd_report or clamped,
-                 sample={"protocol": proto, "ops": [[o, None if x is None else repr(x)] for o, x in ops], "events": impl})
-        ctx.note(f"hist:{proto}")
+        nested = any(o in ("streamdur", "setdur") for o, _ in ops)
+        ctx.case([case["protocol"], case["ops"], sorted(case["options"].items()), len(ops)], rejected or odd_report or clamped or nested,
+                 sample={"protocol": case["protocol"], "ops": shown, "events": impl})
+        ctx.note(f"hist:{case['protocol']}")
         ctx.note("hist:ops", len(ops))
         for o, _ in ops:
             ctx.note("hist:op:" + o)
         if not events_agree(impl, model, wire32=(proto == "mrp")):
-            ctx.disagree({"kind": "history", "protocol": proto, "ops": [[o, None if x is None else repr(x)] for o, x in ops],
-                          "options": opt, "model_ops": encode_ops(rig.entries)}, impl, model, where=f"{proto} history")
+            ctx.disagree({"kind": "history", "protocol": case["protocol"], "ops": shown,
+                          "options": case["options"], "model_ops": encode_ops(rig.entries)}, impl, model, where=f"{proto} history")
         ctx.validated()
         for sig, what in history_problems(proto, ops, rig, utils):
-            ctx.fail(sig, {"kind": "history", "protocol": proto, "ops": [[o, None if x is None else float(x).hex()] for o, x in ops],
-                           "options": {k: v for k, v in opt.items()}}, what, "see property C20", what)
+            ctx.fail(sig, case, what, "see property C20", what)
     return len(ctx.failures) > failures_before
 
 
@@ -1142,11 +1379,19 @@ def run(ctx):
     from pyatv.protocols.airplay import utils
 
     try:
-        check_conversions(ctx, utils, support)
-        check_guards(ctx)
-        check_companion(ctx)
-        check_histories(ctx, utils)
-        check_reachable(ctx, utils)
+        # small first chunk: several device objects alive at once, interleaved operations,
+        # boundaries; then stage by stage, stopping as soon as the verdict is decided
+        stages = [lambda: check_histories(ctx, utils, phase="first"),
+                  lambda: check_conversions(ctx, utils, support),
+                  lambda: check_guards(ctx),
+                  lambda: check_companion(ctx),
+                  lambda: check_histories(ctx, utils, phase="rest"),
+                  lambda: check_reachable(ctx, utils)]
+        for stage in stages:
+            stage()
+            if broken(ctx):
+                ctx.note("stopped-early")
+                break
     finally:
         unpatch_raop()
 
@@ -1178,13 +1423,20 @@ def replay(ctx, failure):
         (reported, rd, st, sent), = vloop.run(companion_cases, [x])
         return bool(companion_problems(x, reported, rd, st, sent))
     if kind == "history":
-        ops = [(o, None if h is None else float.fromhex(h)) for o, h in case["ops"]]
+        ops = [(o, deser(x)) for o, x in case["ops"]]
         opt = case["options"]
-        if case["protocol"] == "raop":
-            rig = vloop.run(run_raop_history, ops, opt.get("client", False), set(opt.get("burst", ())))
-        else:
-            rig = vloop.run(run_mrp_history, ops, opt["initial"])
-        return bool(history_problems(case["protocol"], ops, rig, utils))
+        try:
+            if case["protocol"] == "raop":
+                rigs = [("raop", ops, vloop.run(run_raop_history, ops, opt.get("client", False), set(opt.get("burst", ()))))]
+            elif case["protocol"] == "raop2":
+                a, b = vloop.run(run_two_devices, ops, opt.get("client", False))
+                rigs = [("raop", [(o, x) for o, x in ops if not o.startswith("B:")], a),
+                        ("raop", [(o[2:], x) for o, x in ops if o.startswith("B:")], b)]
+            else:
+                rigs = [("mrp", ops, vloop.run(run_mrp_history, ops, opt["initial"]))]
+        finally:
+            unpatch_raop()
+        return any(history_problems(p, o, r, utils) for p, o, r in rigs)
     if kind == "bfs":
         c2 = type(ctx)(ctx.prop, ctx.tier, ctx.seed, ctx.driver.driver_rel)
         check_reachable(c2, utils)
